@@ -134,7 +134,8 @@ def make_wrapper(world, twins, contract, target, orig, is_static, needs_self):
                 if not ctx.eval(r, env):
                     REC.add(Violation("pre", short, f"requires#{k}", r, call=_describe(env)))
             for lab, e in contract.ensures:
-                st["olds"][e] = ctx.eval_olds(e, env)
+                if not lab.startswith("ghost:"):
+                    st["olds"][e] = ctx.eval_olds(e, env)
             for r in contract.raises:
                 st["whens"][id(r)] = bool(ctx.eval(r.when, env)) if r.when else True
                 for e in r.ensures:
@@ -158,6 +159,8 @@ def make_wrapper(world, twins, contract, target, orig, is_static, needs_self):
                 if isinstance(result, (list, tuple, set)):
                     ctx.strings = sorted(set(ctx.strings) | {x for x in result if isinstance(x, str)})
                 for lab, e in contract.ensures:
+                    if lab.startswith("ghost:"):
+                        continue          # clauses over ghost state exist only in verification conditions
                     if not ctx.eval(e, env2, st["olds"].get(e)):
                         REC.add(Violation("post", short, lab, e, f"witness={ctx.witness!r} result={_short(result)}", call=_describe(env)))
             else:
